@@ -90,6 +90,8 @@ func (m *DefaultInterfaceMocker) Apply(callback interface{}) {
 		panic("method is empty")
 	}
 	m.applyByIFaceMethod(m.ctx, m.iFace, m.method, callback, nil)
+	// Apply 覆盖之前设定的 When/Return, 之后再调用 When/Return 需重新生效
+	m.when = nil
 }
 
 // As 将接口方法 mock 为实际的接收体方法
